@@ -5,6 +5,7 @@ import Driver.Loss
 import Driver.Xor
 import Driver.Pipe
 import Driver.Nat
+import Driver.Addressing
 
 def main (args : List String) : IO UInt32 := do
   match args with
@@ -15,4 +16,6 @@ def main (args : List String) : IO UInt32 := do
   | ["bridge"] => Driver.runComponent Driver.Pipe.bridge; return 0
   | ["dpipe"] => Driver.runComponent Driver.Pipe.dpipe; return 0
   | ["nat", mode] => Driver.runComponent (Driver.Nat.comp mode); return 0
+  | ["router"] => Driver.runComponent Driver.Addressing.router; return 0
+  | ["host"] => Driver.runComponent Driver.Addressing.host; return 0
   | _ => IO.eprintln "usage: vdrv <component> [args]"; return 2
